@@ -415,7 +415,7 @@ def rule_callers(fx, rep):
 G = "src/chess/game.rs"
 MUTANTS = [
     {"name": "promotion no longer resets the halfmove clock (seed C11-3)", "expect": "C11-CLOCK",
-     "edits": [(G, "        if maybe_captured_piece.is_some() || moved_piece.kind == PieceKind::Pawn {", "        if maybe_captured_piece.is_some() || (moved_piece.kind == PieceKind::Pawn && mv.promotion().is_none()) {")]},
+     "edits": [(G, "            maybe_captured_piece.is_some() || moved_piece.kind == PieceKind::Pawn;", "            maybe_captured_piece.is_some() || (moved_piece.kind == PieceKind::Pawn && mv.promotion().is_none());")]},
     {"name": "king and two minors versus king with a pawn counted as dead", "expect": "C11-MATERIAL",
      "edits": [(G, "            3 => (self.board.all_knights() | self.board.all_bishops()).any(),", "            3 => true,")]},
     {"name": "five men with three knights declared dead", "expect": "C11-MATERIAL",
